@@ -92,7 +92,7 @@ def array_cfg(rng, tier, prop, families):
            "n_steps": rng.randint(25, 60) if long_ else rng.randint(5, 30)}
     if rng.random() < 0.06:
         # "big" runs: behaviour must not depend on axes being short
-        cfg["max_len"], cfg["max_rank"], cfg["big"] = rng.randint(6, 24), min(cfg["max_rank"], 2), True
+        cfg["max_len"], cfg["max_rank"], cfg["big"] = rng.choice([rng.randint(6, 24)] * 4 + [rng.randint(101, 130)]), min(cfg["max_rank"], 2), True
     if rng.random() < 0.15:
         cfg["dtypes"] = cfg["dtypes"] + ["f4"]
     cfg["min_len"] = min(cfg["min_len"], cfg["max_len"])
